@@ -147,6 +147,15 @@ def r091(prog, chk):
                     ok = ix.is_subclass(f, BASE_IFILTER) or _sibling(prog, f) is not None or f.name in SAFE_PER_MASTER
                     chk.ob("R09.1", f"{m.short}|default filter {f.name}", ok, where(m, c), detail="has an interpolatable sibling (merged by _run)",
                            message=f"{m.short} adds the per-master filter {f.name} (no interpolatable sibling) to the default filters of an interpolatable pipeline")
+    check_nonmatching_components(prog, chk, "R09.1")
+    chk.minimum("R09.1", 10)
+
+
+def check_nonmatching_components(prog, chk, rule):
+    """(shared with C10 as R10.9) composites whose component 2x2 differs between masters cannot vary in gvar (only offsets
+    do) and must be decomposed: the comparison runs over all masters for every composite."""
+    ix = prog.ix
+    ci = ix.get_class(f"{PRE}.TTFInterpolatablePreProcessor")
     # (e) check_for_nonmatching_components compares the 2x2 over all layers
     cn = ci.methods["check_for_nonmatching_components"]
     lay = [s for s in A.stmts_of(cn.node) if isinstance(s, ast.Assign) and isinstance(s.value, ast.ListComp) and _is_all_glyphsets(s.value.generators[0].iter)]
@@ -158,9 +167,22 @@ def r091(prog, chk):
         ok = (sl.lower is None or A.is_const(sl.lower, 0)) and A.is_const(sl.upper, 4) and T(tr[0].value.generators[0].iter) == lay[0].targets[0].id and "transformation" in T(tr[0].value.elt.value)
     adds = [c for c in calls_named(cn, "add") if T(c.func.value) == cn.params()[1]]
     okadd = len(adds) == 1 and any(isinstance(x, ast.Compare) and isinstance(x.ops[0], ast.NotEq) for g in conds(prog, cn, adds[0]) for x in ast.walk(g.test))
-    chk.ob("R09.1", f"{cn.short}|2x2 (transformation[0:4]) compared across all layers; mismatch adds the glyph", ok and okadd, where(cn), detail="transforms over all layers; any(transform != transforms[0])",
+    chk.ob(rule, f"{cn.short}|2x2 (transformation[0:4]) compared across all layers; mismatch adds the glyph", ok and okadd, where(cn), detail="transforms over all layers; any(transform != transforms[0])",
            message=f"{cn.short}: the component 2x2 is no longer compared across all masters (or a mismatch no longer forces decomposition)")
-    chk.minimum("R09.1", 10)
+    # the only glyphs the check passes over: already marked ones and glyphs without components in any master
+    gl = [n for n in cn.node.body if isinstance(n, ast.For)]
+    need(len(gl) == 1, f"cannot interpret {cn.short}: glyph loop")
+    skips = [n for n in ast.walk(gl[0]) if isinstance(n, ast.Continue) and not any(isinstance(a, ast.For) and a is not gl[0] for a in ix.ancestors(n) if any(b is gl[0] for b in ix.ancestors(a)))]
+    bad = []
+    for sk in skips:
+        fs = facts(prog, cn, sk)
+        ok_sk = any(o == "in" and r == cn.params()[1] for o, l, r in fs) or any(o == "falsy" and l.startswith("any(") for o, l, r in fs)
+        if not ok_sk:
+            bad.append(sk)
+    chk.ob(rule, f"{cn.short}|no composite is passed over on the evidence of one master", not bad, where(cn, bad[0]) if bad else where(cn), detail=f"{len(skips)} skip(s): already marked / no components anywhere",
+           message=f"{cn.short}: a glyph can be skipped under `{T(ix.parent(bad[0]).test, 60) if bad and isinstance(ix.parent(bad[0]), ast.If) else ''}` without comparing its component "
+                   f"transformations across all masters: a composite that is plain in one master and scaled / flipped in another stays a composite, varLib drops its variation data and "
+                   f"the variable font shows the default shape at every location")
 
 
 def _sibling(prog, f: ClassInfo) -> Optional[ClassInfo]:
@@ -584,6 +606,8 @@ def r0912(prog, chk):
 
 
 MUTANTS = [
+    M("2x2 mismatch check skipped when the first master's components are all plain (seeded C10k)", "ufo2ft/preProcessor.py", "TTFInterpolatablePreProcessor.check_for_nonmatching_components",
+      "if not any(component_counts):\n    continue", "if not any(component_counts):\n    continue\nif all((c.transformation[0:4] == (1, 0, 0, 1) for c in layers[0].components)):\n    continue", rule="R09.1"),
     M("components with a singular transformation are dropped instead of drawn (seeded C09k)", "ufo2ft/util.py", "decomposeCompositeGlyph",
       "pen = DecomposingFilterPointPen(glyph.getPointPen(), glyphSet, reverseFlipped=reverseFlipped, include=include, decomposeNested=decomposeNested)",
       "pen = DecomposingFilterPointPen(glyph.getPointPen(), glyphSet, reverseFlipped=reverseFlipped, include=include, decomposeNested=decomposeNested)\nfor component in list(glyph.components):\n    if component.transformation[0] * component.transformation[3] == component.transformation[1] * component.transformation[2]:\n        glyph.removeComponent(component)", rule="R09.13"),
